@@ -217,13 +217,12 @@ def random_mps(rng, model, sector, m_max, percent=1.0, tries=6):
     return None
 
 
-def product_in_sector(rng, spec, basis, k, model, target=None):
-    """random Hartree product configuration; returns (mps, sector)"""
+def product_in_sector(rng, basis, model):
+    """random Hartree product configuration; returns (mps, sector, condition)"""
     from renormalizer import Mps
     cond = {}
-    for i, b in enumerate(basis):
-        st = int(rng.integers(b.nbas))
-        cond[b.dofs[0]] = st
+    for b in basis:
+        cond[b.dofs[0]] = int(rng.integers(b.nbas))
     mps = Mps.hartree_product_state(model, cond)
     return mps, [int(x) for x in np.asarray(mps.qntot).reshape(-1)], {str(kk): v for kk, v in cond.items()}
 
@@ -292,7 +291,7 @@ def gen_chain_state(rng, quick):
             mps = p if mps is None else mps.add(p)
         desc.update(sector=sector, confs=[int(c) for c in take])
     else:  # product
-        mps, sector, cond = product_in_sector(rng, spec, basis, k, model)
+        mps, sector, cond = product_in_sector(rng, basis, model)
         desc.update(sector=sector, cond=cond)
     # bring into a canonical form accepted by compress: qnidx at an end, matching direction
     try:
@@ -472,6 +471,7 @@ def chain_spectra(psi, dims):
 
 def part_chain(run, rng, ncases, quick, t_end):
     n_eval = 0
+    n_sampled = 0
     distinct = set()
     for _ in range(ncases):
         if time.time() > t_end:
@@ -563,8 +563,10 @@ def part_chain(run, rng, ncases, quick, t_end):
             distinct.add((kind, desc["kind"], cfg_tag(cfg), n, tuple(bd), bool(mps.to_right)))
         else:
             run.count("chain:lossless(rank<=M)")
-        run.sample(dict(part="chain", kind=kind, state=desc["kind"], spec=desc["spec"], config=cfg, in_dims=replay["input_bond_dims"],
-                        out_dims=bd, distance=dist, upper=up, lower=lo))
+        if truncated and n_sampled < 2:
+            n_sampled += 1
+            run.sample(dict(part="chain", kind=kind, state=desc["kind"], spec=desc["spec"], config=cfg, in_dims=replay["input_bond_dims"],
+                            out_dims=bd, distance=dist, upper=up, lower=lo))
     return n_eval, len(distinct)
 
 
@@ -734,6 +736,7 @@ def gen_tree_state(rng, quick):
 
 def part_tree(run, rng, ncases, quick, t_end):
     n_eval = 0
+    n_sampled = 0
     distinct = set()
     for _ in range(ncases):
         if time.time() > t_end:
@@ -800,9 +803,10 @@ def part_tree(run, rng, ncases, quick, t_end):
         else:
             run.count("tree:lossless(rank<=M)")
         run.count("tree:shape:" + ("chain" if all(p == i - 1 for i, p in enumerate(desc["tree"]["parents"])) else "branched"))
-        if n_eval <= 2:
+        if truncated and n_sampled < 2:
+            n_sampled += 1
             run.sample(dict(part="tree", tree=desc["tree"], state=desc["kind"], config=cfg, in_dims=in_dims, out_dims=bd,
-                            distance=dist, upper=up, lower=lo), limit=6)
+                            distance=dist, upper=up, lower=lo), limit=4)
     return n_eval, len(distinct)
 
 
